@@ -275,6 +275,7 @@ def check(prog, rep):
 
     # ------------------------------------------------------------------ R6
     rule_peptide_pointers(prog, rep, t)
+    rule_completion_reads_occupied(prog, rep)
 
 
 def rule_peptide_pointers(prog, rep, t, rid="R6"):
@@ -373,6 +374,43 @@ def rule_peptide_pointers(prog, rep, t, rid="R6"):
     r.add("limit-separates-bonded-from-1-3", max(bonded) < limit < min(non),
           f"{limit_txt} = {limit}: template C-N bond lengths {min(bonded):.2f}-{max(bonded):.2f} A, nearest non-bonded (CA...N+1, CA...C-1) "
           f"{min(non):.2f} A; the limit must lie strictly between", "pdb2pqr/config.py")
+
+
+def rule_completion_reads_occupied(prog, rep):
+    """Completing an XH3 group: the free position is determined only by where the hydrogens already present are, so the
+    placement must read the coordinates of every one of them (a necessary condition for 'does not coincide')."""
+    r = rep.rule("R7", "tetrahedral completion reads the position of every hydrogen already on the centre", floor=1)
+    fi = prog.func("aa.py", "Amino.rebuild_tetrahedral")
+    fn = fi.node
+    n_lists = 0
+    for st in iter_stmts(fn.body):
+        if not (isinstance(st, ast.Assign) and isinstance(st.targets[0], ast.Name) and isinstance(st.value, ast.ListComp)
+                and "get_atom" in U(st.value.elt) and "startswith('H')" in U(st.value)):
+            continue
+        lst = st.targets[0].id
+        sizes = [try_fold(c.comparators[0]) for c in ast.walk(fn) if isinstance(c, ast.Compare) and U(c.left) == f"len({lst})" and len(c.ops) == 1]
+        sizes = [x for x in sizes if isinstance(x, int)]
+        if not sizes:
+            raise AnalysisError(f"rebuild_tetrahedral: no size test on the list of existing hydrogens {lst!r}")
+        n = max(sizes)
+        n_lists += 1
+        read = set()
+        whole = False
+        for x in ast.walk(fn):
+            if isinstance(x, ast.Attribute) and x.attr in ("coords", "x", "y", "z") and isinstance(x.value, ast.Subscript) and U(x.value.value) == lst:
+                i = try_fold(x.value.slice)
+                if isinstance(i, int):
+                    read.add(i % n if i < 0 else i)
+            if isinstance(x, (ast.For, ast.comprehension)) and U(x.iter) == lst and x is not st.value.generators[0]:
+                whole = True
+        missing = sorted(set(range(n)) - read) if not whole else []
+        r.add(f"reads-all|{lst}", not missing,
+              f"the branch with {n} hydrogens present reads the coordinates of {'all of them' if not missing else sorted(read)}"
+              + (f"; the position of {lst}[{missing[0]}] is never looked at, so the new hydrogen cannot avoid it: whenever the existing hydrogens are "
+                 "not in the order the code assumes (hydrogens taken from the input) the new atom is built on top of one of them" if missing else ""),
+              f"pdb2pqr/aa.py:{st.lineno} (Amino.rebuild_tetrahedral)")
+    if not n_lists:
+        raise AnalysisError("rebuild_tetrahedral: the list of hydrogens already present was not found")
 
 
 def _pp(v):
